@@ -161,7 +161,7 @@ func init() {
 		WatchdogSec:    3600, // one case is a whole exploration by an external tool, which has its own time limit (toolTimeout)
 		MemLimitGiB:    -1,   // the -race children need their shadow mapping
 		SchedulerStyle: true,
-		Rule:           "for every unordered pair of the 19-operation alphabet on shared objects (thorough: also triples): (1) stateless DFS over all interleavings at statement granularity with iterative preemption bounding on the instrumented real code (about 1590 scheduling points; map iteration made deterministic by the instrumenter; sync replaced by a scheduler-aware stand-in so that lock operations are scheduling points with enabledness and deadlock is detected; package-level variables re-initialised before every execution; replay determinism asserted), each call's result compared with the call run alone, shared objects and package-level variables digested at every point of the single-thread runs and at the end of every schedule; (2) free-running -race pass of the same bodies under 3 launch patterns x 20 repetitions; states = schedules explored, transitions = scheduling steps executed",
+		Rule:           "for every unordered pair of the 21-operation alphabet on shared objects (thorough: also triples): (1) stateless DFS over all interleavings at statement granularity with iterative preemption bounding on the instrumented real code (about 1590 scheduling points; map iteration made deterministic by the instrumenter; sync replaced by a scheduler-aware stand-in so that lock operations are scheduling points with enabledness and deadlock is detected; package-level variables re-initialised before every execution; replay determinism asserted), each call's result compared with the call run alone, shared objects and package-level variables digested at every point of the single-thread runs and at the end of every schedule; (2) free-running -race pass of the same bodies under 3 launch patterns x 20 repetitions; states = schedules explored, transitions = scheduling steps executed",
 		Assumptions:    []string{"statement-granularity interleavings; sub-statement tearing and memory-model effects are delegated to the race detector pass", "map iteration is fixed to sorted-key order in the scheduler pass (a legal order); the random orders are exercised by the free-running pass"},
 		Build: func(tier string, seed int64) []h.Space {
 			pairs := conc.Pairs()
